@@ -17,6 +17,7 @@ import (
 
 	"pgregory.net/rapid"
 
+	"github.com/jech/galene/group"
 	"github.com/jech/galene/verifkit"
 )
 
@@ -161,7 +162,20 @@ func TestVerif_C18_ConditionalSequences(t *testing.T) {
 		var log []string
 		refused, accepted, collisions := 0, 0, 0
 		n := rapid.IntRange(2, 14).Draw(t, "nreq")
+		// the running server may hold the group in memory (somebody joined it, or asked for its status): reads are then
+		// answered from the cached definition as long as the server believes the file unchanged
+		keepLoaded := rapid.Bool().Draw(t, "groupHeldInMemory")
+		sameSize := rapid.Bool().Draw(t, "sameSizeVersions")
+		loads := 0
+		defer group.Delete(g)
 		for i := 0; i < n; i++ {
+			if keepLoaded && group.Get(g) == nil {
+				if _, err := os.Stat(fn); err == nil {
+					if _, err := group.Add(g, nil); err == nil {
+						loads++
+					}
+				}
+			}
 			cur := fileTag(fn)
 			obj := rapid.SampledFrom([]string{"group", "group", "user"}).Draw(t, "object")
 			path := p
@@ -227,11 +241,16 @@ func TestVerif_C18_ConditionalSequences(t *testing.T) {
 				hdr[cond] = condVal
 			}
 			var body []byte
+			// successive versions differ in size, or (same size) in modification time only
+			dn := fmt.Sprintf("v%d%s", i, strings.Repeat("x", i))
+			if sameSize {
+				dn = fmt.Sprintf("w%03d", i)
+			}
 			if method == "PUT" {
 				if obj == "user" {
 					body = []byte(fmt.Sprintf(`{"permissions":%q}`, rapid.SampledFrom([]string{"op", "present", "message", "observe"}).Draw(t, "role")))
 				} else {
-					body = []byte(fmt.Sprintf(`{"displayName":"v%d%s"}`, i, strings.Repeat("x", i)))
+					body = []byte(fmt.Sprintf(`{"displayName":%q}`, dn))
 				}
 			}
 			resp, err := rig.raw(method, path, hdr, body)
@@ -293,7 +312,7 @@ func TestVerif_C18_ConditionalSequences(t *testing.T) {
 					t.Fatalf("acknowledged DELETE of the group, but the file is still there")
 				}
 			case method == "PUT" && obj == "group":
-				if d == nil || d["displayName"] != fmt.Sprintf("v%d%s", i, strings.Repeat("x", i)) {
+				if d == nil || d["displayName"] != dn {
 					t.Fatalf("acknowledged PUT of the group is not reflected in the file: %v", d)
 				}
 			case obj == "user":
@@ -308,6 +327,8 @@ func TestVerif_C18_ConditionalSequences(t *testing.T) {
 		c18sRec.ClassN("accepted_writes", accepted)
 		c18sRec.ClassN("refused_writes", refused)
 		c18sRec.ClassN("excluded_indistinguishable_versions", collisions)
+		c18sRec.ClassIf(loads > 0, "group_held_in_memory_by_the_server")
+		c18sRec.ClassIf(sameSize, "successive_versions_of_equal_size")
 	})
 }
 
